@@ -36,7 +36,7 @@ def report_defs(rng, k, scen_ids=()):
             lines.append('  timeformat "%s"' % fmts["rep%d" % i])
         if rng.random() < 0.4:
             lines.append("  leaftasksonly true")
-        hides["rep%d" % i] = rng.choice(["", "", "@none", "@none", "@all", "red", "~red", "blue"])
+        hides["rep%d" % i] = rng.choice(["", "@none", "@all", "red", "~red", "blue", "~blue", "~red"])      # '~flag': containers go, flagged leaves inside them stay
         if hides["rep%d" % i]:
             lines.append("  hidetask %s" % hides["rep%d" % i])      # '@none' hides nothing, a flag name the tasks that carry it
         lines.append("}")
@@ -52,7 +52,7 @@ def check(prop, tier, replay=None):
                        "non-trivial = report over a project with a container and either an unscheduled leaf or a cost column")
     run.assumptions = ["datetime.strftime / strptime of CPython render the abstract instants", "money compared within one cent (two printed decimals)"]
     rng = random.Random(run.seed * 7 + 18)
-    n = 12 if tier == "quick" else 300
+    n = 30 if tier == "quick" else 300
     jobs = []
     for name in ("trees", "dags", "chain_subslot", "teams_alts", "infeasible", "dup_leaf_ids"):
         for pid, p in getattr(gen, name)(rng, n):
@@ -80,8 +80,8 @@ def check(prop, tier, replay=None):
             # flags on leaves below unflagged containers (what a container's flag means for the tasks inside is not claimed)
             p.flag_decl = ["red", "blue"]
             for t in p.tasks:
-                if not t.kids and rng.random() < 0.4:
-                    t.flags = list(t.flags) + [rng.choice(["red", "blue"])]
+                if not t.kids and rng.random() < 0.55:
+                    t.flags = list(t.flags) + [rng.choice(["red", "red", "red", "blue"])]
             p.extra, which, fmts, hides = report_defs(rng, 3, scen_ids)
             # the effective time format by the generator: the report's own, else the one the project header declares
             jobs.append({"id": "C18-" + pid, "text": p.render(), "report_scenario": which, "rates": gen.effective_rates(p),
